@@ -440,6 +440,21 @@ func c04Gen(o *out, r *rng, tier string) {
 			emit(0, 0, md.Name, "-", []string{"application/protobuf"}, nil, reqFor(md, "-"), mkReply(md, class), "classes")
 		}
 	}
+	// several muxes side by side (one custom codec / another custom codec / none, created in that order): each
+	// negotiates over its own codecs
+	for mi := range c04Methods {
+		md := &c04Methods[mi]
+		if mi >= 3 {
+			break
+		}
+		for _, acc := range [][]string{nil, {c04CustA}, {c04CustC}, {"application/protobuf"}, {"application/json"}, {c04CustA + ", application/json;q=0.5"},
+			{c04CustC + ", application/protobuf;q=0.5"}, {"application/*"}, {"*/*;q=0.1, application/octet-stream"}} {
+			for v := 2; v <= 4; v++ {
+				emit(v, 0, md.Name, "-", acc, nil, reqFor(md, "-"), mkReply(md, 1), "side-by-side")
+				emit(v, 0, md.Name, "application/protobuf", acc, nil, reqFor(md, "application/protobuf"), mkReply(md, 1), "side-by-side")
+			}
+		}
+	}
 	for i := 0; i < 4000*scale; i++ {
 		md := &c04Methods[r.intn(len(c04Methods))]
 		class := []int{0, 1, 1, 1, 2, 2, 1, 1}[r.intn(8)]
